@@ -33,14 +33,14 @@ struct Spec {
     int integ; int nb; std::vector<int> jt;   // joint type per body: 0 pin, 1 ball, 2 free
     bool rod, plane, cspeed, motion; int motionLevel = 0; double g; double amp, rate, phase; double fin = -1; bool sched = false;
     std::vector<double> q0seed;
-    double fixedStep = -1; bool forceNewton = false, fixedStepBlock = false; double acc, ctol; int infNorm, projEvery, allowInterp, projInterp; double dtr, tEnd; std::vector<double> wit;
+    double fixedStep = -1; bool forceNewton = false, fixedStepBlock = false, ballc = false, infClass = false; double acc, ctol; int infNorm, projEvery, allowInterp, projInterp; double dtr, tEnd; std::vector<double> wit;
 };
 struct Model {
     MultibodySystem system; SimbodyMatterSubsystem matter; GeneralForceSubsystem forces;
     std::vector<MobilizedBody> bodies;
     Model() : matter(system), forces(system) {}
 };
-static void build(const Spec& S, Model& M, double rodLen, double planeH) {
+static void build(const Spec& S, Model& M, double rodLen, double planeH, const Vec3& ballG = Vec3(0)) {
     Force::UniformGravity(M.forces, M.matter, Vec3(0.3, -S.g, 0.2));
     Body::Rigid body(MassProperties(1.0, Vec3(0, -0.3, 0), Inertia(0.3, 0.2, 0.3)));
     MobilizedBody parent = M.matter.Ground();
@@ -54,6 +54,7 @@ static void build(const Spec& S, Model& M, double rodLen, double planeH) {
         M.bodies.push_back(b); parent = b;
     }
     MobilizedBody last = M.bodies.back();
+    if (S.ballc) Constraint::Ball(M.matter.Ground(), ballG, last, Vec3(0.2, -1, 0.1));     // 3 position + 3 velocity equations
     if (S.rod) Constraint::Rod(M.matter.Ground(), Vec3(1.5, 0.5, 0.3), last, Vec3(0, -1, 0), rodLen);
     if (S.plane) Constraint::PointInPlane(M.matter.Ground(), UnitVec3(0.2, 1, 0.1), planeH, M.bodies[S.nb > 1 ? S.nb - 2 : 0], Vec3(0.1, -0.7, 0.1));
     if (S.cspeed && S.jt[0] == 0 && !S.motion) Constraint::ConstantSpeed(M.bodies[0], 0.7);
@@ -177,8 +178,8 @@ static void emitState(const Spec& S, const Model& M, const Integrator& I, const 
     acc->n++;
 }
 
-static void session(vh::Rng& r, int integ, bool optionClass = false) {
-    Spec S; S.integ = integ;
+static void session(vh::Rng& r, int integ, bool optionClass = false, bool infClass = false) {
+    Spec S; S.integ = integ; S.infClass = infClass;
     S.nb = 1 + r.below(3);
     for (int i = 0; i < S.nb; ++i) S.jt.push_back(r.below(5) == 0 ? 2 : r.below(2));
     S.rod = r.below(3) != 0; S.plane = r.below(3) == 0; if (!S.rod && !S.plane) S.rod = true;
@@ -193,6 +194,13 @@ static void session(vh::Rng& r, int integ, bool optionClass = false) {
         if (dof - ncons() < 1) S.motion = false;
         if (dof - ncons() < 1) S.plane = false;
         if (dof - ncons() < 1) { S.jt[0] = 1; }      // a lone pin with a rod: make it a ball joint
+    }
+    if (infClass) {
+        // guaranteed class: infinity norm ON x >= 4 velocity-level constraint equations with uneven errors: a chain of 2-3 Ball/Free
+        // joints whose tip is pinned by a Ball constraint (3 equations) plus a PointInPlane on an inner body (+1) and, half of the
+        // time, a Rod on the tip (+1, nearly redundant direction -> very uneven error distribution)
+        S.nb = 2 + r.below(2); S.jt.clear(); for (int i = 0; i < S.nb; ++i) S.jt.push_back(r.below(4) == 0 ? 2 : 1);
+        S.ballc = true; S.plane = true; S.rod = r.below(2) == 0; S.cspeed = S.motion = false;
     }
     S.motionLevel = r.below(3) == 0 ? 1 : 0;
     S.g = r.range(2.0, 12.0); S.amp = r.range(0.2, 0.8); S.rate = r.range(0.5, 3.0); S.phase = r.range(0, 3);
@@ -218,10 +226,12 @@ static void session(vh::Rng& r, int integ, bool optionClass = false) {
     }
     if (r.below(4) == 0) S.fin = r.range(0.5, 1.0) * S.tEnd;
     S.sched = r.below(4) == 0;
+    if (infClass) { S.infNorm = 1; S.fixedStepBlock = true; S.acc = std::pow(10.0, -r.range(2.0, 3.5)); S.ctol = std::pow(10.0, -r.range(3.0, 5.0));
+                    S.projEvery = 0; S.tEnd = r.range(0.8, 1.5); }
     // pass 1: measure the geometry at the chosen configuration so that the constraints are satisfiable there
-    double rodLen = 1, planeH = 0;
+    double rodLen = 1, planeH = 0; Vec3 ballG(0);
     {
-        Spec S0 = S; S0.rod = S0.plane = S0.cspeed = false; S0.wit.clear();
+        Spec S0 = S; S0.rod = S0.plane = S0.cspeed = S0.ballc = false; S0.wit.clear();
         Model M0; build(S0, M0, 1, 0);
         State s0 = M0.system.realizeTopology();
         setQ(S0, M0, s0);
@@ -229,11 +239,12 @@ static void session(vh::Rng& r, int integ, bool optionClass = false) {
         M0.system.realize(s0, Stage::Position);
         const Vec3 p = M0.bodies.back().findStationLocationInGround(s0, Vec3(0, -1, 0));
         rodLen = (p - Vec3(1.5, 0.5, 0.3)).norm();
+        ballG = M0.bodies.back().findStationLocationInGround(s0, Vec3(0.2, -1, 0.1));
         const Vec3 p2 = M0.bodies[S.nb > 1 ? S.nb - 2 : 0].findStationLocationInGround(s0, Vec3(0.1, -0.7, 0.1));
         planeH = dot(UnitVec3(0.2, 1, 0.1), p2);
         if (rodLen < 0.2) S.rod = false, S.plane = true;
     }
-    Model M; build(S, M, rodLen, planeH);
+    Model M; build(S, M, rodLen, planeH, ballG);
     State state = M.system.realizeTopology();
     setQ(S, M, state);
     for (int i = 0; i < state.getNU(); ++i) state.updU()[i] = r.range(-0.5, 0.5);
@@ -254,7 +265,8 @@ static void session(vh::Rng& r, int integ, bool optionClass = false) {
     // key classes: CPodes (own stepTo around CPODES dense output); error-controlled integrators run with a user minimum step
     // size (setFixedStepSize) that forces acceptance of inaccurate steps; everything else by integrator name
     const bool errCtl = S.integ != 6;   // every AbstractIntegratorRep method except SemiExplicitEuler has error control
-    const std::string fam = isCP ? "CPodes" : (S.fixedStep > 0 && errCtl) ? "AbstractIntegratorRep.minStepForced" : INTEG_NAMES[S.integ];
+    const std::string fam = isCP ? "CPodes" : (S.fixedStep > 0 && errCtl) ? "AbstractIntegratorRep.minStepForced"
+                            : S.infClass ? std::string(INTEG_NAMES[S.integ]) + ".infnorm" : INTEG_NAMES[S.integ];
     Worst W;
     bool failed = false;
     try {
@@ -277,6 +289,7 @@ static void session(vh::Rng& r, int integ, bool optionClass = false) {
     vh::O("sess").i(1).emit();
     vh::D(std::string(INTEG_NAMES[S.integ]) + (S.fixedStep > 0 ? ".session.fixedStep" : ".session"));
     if (S.motion) vh::D(S.motionLevel ? "class.motion.velocity_level" : "class.motion.position_level");
+    if (S.infClass) vh::D(std::string("class.infnorm_multi_velocity_constraints.") + INTEG_NAMES[S.integ]);
     if (optionClass) vh::D("class.projInterpOff_events_tightTol"); if (S.forceNewton) vh::D("class.force_full_newton");
     if (S.fin > 0) vh::D("class.final_time"); if (S.sched) vh::D("class.scheduled_times");
     std::fprintf(stderr, "MAXRATIO %s %.17g %.17g %.17g\n", fam.c_str(), W.q, W.quat, W.u);
@@ -490,7 +503,7 @@ static void runOne(unsigned long long seed, long idx) {
         vh::Rng sub(rng.next());
         if (i < idx) continue;
         g_tag = "seed " + g_mode + " " + std::to_string(seed) + " " + std::to_string(idx);
-        if (g_mode == "oracle") orc::session(sub, (int)(i % 4)); else session(sub, (int)(i % 10), (i / 10) % 3 == 1);
+        if (g_mode == "oracle") orc::session(sub, (int)(i % 4)); else session(sub, (int)(i % 10), (i / 10) % 3 == 1, (i / 10) % 3 == 2);
     }
 }
 
